@@ -37,7 +37,7 @@ Inc(ns, f) == [ns |-> ns, file |-> f, flatten |-> FALSE, internal |-> FALSE, mis
 \* tag: every include statement passes its own value for the include variable IV
 Variants(i, tag) ==
   {i, [i EXCEPT !.flatten = TRUE], [i EXCEPT !.internal = TRUE], [i EXCEPT !.missing = "optional"],
-   [i EXCEPT !.missing = "required"], [i EXCEPT !.missing = "present-optional"], [i EXCEPT !.alias = "z"], [i EXCEPT !.exclude = "t1"],
+   [i EXCEPT !.missing = "required"], [i EXCEPT !.missing = "present-optional"], [i EXCEPT !.alias = "z"], [i EXCEPT !.exclude = "t1"], [i EXCEPT !.exclude = "default"],
    [i EXCEPT !.dir = "sub"], [i EXCEPT !.iv = tag \o i.ns]}
 Variants2(i, tag) == UNION {Variants(j, tag) : j \in Variants(i, tag)}
 NonDefault(i) == Cardinality({k \in {"flatten", "internal", "missing", "alias", "exclude", "dir", "iv"} :
